@@ -308,7 +308,7 @@ def spec_exitStatement(self, ctx):
             if bb.is_template():
                 raise ValueError("Included operation {} missing keyword arguments {}".format(op, bb.parameters))
         mode_map = dict(zip(sorted(bb.modes), modes))
-        for i in bb._operations:
+        for i in copy.deepcopy(bb._operations):                      # C07: every call expands a COPY (the registered include is reused by later calls)
             i["modes"] = [mode_map[j] for j in i["modes"]]
             self._program._operations.append(i)
     else:
